@@ -118,6 +118,9 @@ strings = {
     "/": "/", "~": "~", "~0": "~0", "~1": "~1", "~01": "~01", "%": "%", "%25": "%25",
     " ": " ", "0": "0", "01": "01", "1": "1", "-": "-", "a/b": "a/b", "a~b": "a~b",
     "$ref": "$ref", "#": "#", "?": "?", "B": "B", "aa": "aa", "10": "10", "9": "9", "z": "z",
+    # names whose byte order differs from the order of their JSON encodings ('"' = 0x22 ends an encoded
+    # key; '<', '&', '"', '\\' are escaped by encoding/json)
+    "a!": "a!", "a b": "a b", "a<b": "a<b", "aZ": "aZ", "a_q": "a\"", "a_bs": "a\\", "a&": "a&",
 }
 patterns = {
     "^a": "^a", "b$": "b$", "a.c": "a.c", "^[ab]+$": "^[ab]+$", "b": "b",
